@@ -216,15 +216,15 @@ func enumWorker(tier, slice, outf string) {
 	for j := i; j < len(jobs); j += n {
 		st, cleanup := jobs[j].en.mk()
 		e := NewEmu(st)
-		e.Exec(Call{Req: Req{Kind: "create", Parent: "p", Tid: "t", Fams: []FamDef{{Name: "f"}}}, Now: 1000})
+		e.Exec(Call{Req: Req{Kind: "create", Parent: parentA, Tid: "t", Fams: []FamDef{{Name: "f"}}}, Now: 1000})
 		for _, k := range enumUniverse {
-			e.Exec(Call{Req: Req{Kind: "mutate", Table: "p/tables/t", Key: k, Muts: []Mutation{{Kind: "set", Fam: "f", Q: []byte("q"), Ts: 1000, V: k}}}, Now: 1000})
+			e.Exec(Call{Req: Req{Kind: "mutate", Table: tname(parentA, "t"), Key: k, Muts: []Mutation{{Kind: "set", Fam: "f", Q: []byte("q"), Ts: 1000, V: k}}}, Now: 1000})
 		}
 		count := enumBlock(tier)
 		if jobs[j].rs0+count > enumRangeSets {
 			count = enumRangeSets - jobs[j].rs0
 		}
-		c := runEnumBlock(e, "p/tables/t", jobs[j].rs0, count, limits, jobs[j].en.name)
+		c := runEnumBlock(e, tname(parentA, "t"), jobs[j].rs0, count, limits, jobs[j].en.name)
 		closeEmu(e)
 		cleanup()
 		b, _ := json.Marshal(struct {
